@@ -350,6 +350,12 @@ def main():
         small = minimize(binpath, bind, acts[:i + 1], kind, work)
         ub = used_bind(bind, small)
         key = "%s/%s/%s" % (kind, ",".join("%s=%s" % kv for kv in sorted(ub.items())), ">".join(desc(a) for a in small))
+        names = [desc(a) for a in small]
+        il = [n for n, d in enumerate(names) if d.startswith("Set(lock=2")]
+        if il and any(d.startswith("Set(quat=") for d in names[il[-1] + 1:]):
+            # its own call site: re-realizing Model stage after a Model-stage change re-initialises the recorded lock VALUES
+            # (lockedQs / lockedUs) while the lock LEVEL survives
+            key = "lockAt-value-lost/Set(lock=2)>Set(quat)>Realize"
         rep.violation(key, {"bind": bind, "program": small, "origin": origin},
                       "after %s [%s]: %s" % (" ; ".join(desc(a) for a in small),
                                              ", ".join("%s via %s" % kv for kv in sorted(ub.items())), detail))
